@@ -7,8 +7,8 @@
 
 static const char *const CNT[] = { "ws_success", "ws_shortage_initial", "ws_shortage_midfactor", "ws_singular", "lib_success", "fault_reported", "fault_not_reached",
     "query_checked", "expansions_0", "expansions_1", "expansions_2", "expansions_ge3", "ilu_cases", "scenario_identical", "scenario_insufficient_skipped", "align4", "exp_LUSUP", "exp_UCOL", "exp_LSUB", "exp_USUB",
-    "query_sideeffect_equil", "ilu_capacity_sweep", NULL };
-enum { C_WOK, C_WINIT, C_WMID, C_WSING, C_LOK, C_FREP, C_FNOT, C_QUERY, C_E0, C_E1, C_E2, C_E3, C_ILU, C_IDENT, C_INSUF, C_AL4, C_XL, C_XU, C_XLS, C_XUS, C_QSIDE, C_CAPSWEEP };
+    "query_sideeffect_equil", "ilu_capacity_sweep", "ilu_capacity_sweep_in_workspace", NULL };
+enum { C_WOK, C_WINIT, C_WMID, C_WSING, C_LOK, C_FREP, C_FNOT, C_QUERY, C_E0, C_E1, C_E2, C_E3, C_ILU, C_IDENT, C_INSUF, C_AL4, C_XL, C_XU, C_XLS, C_XUS, C_QSIDE, C_CAPSWEEP, C_CAPWS };
 static const char *const RAT[] = { NULL };
 
 /* ------------------------------------------------------------------ arena */
@@ -366,6 +366,19 @@ static void run_C07(const vcase *c, vres *r)
         if (check_LU_structure(T, &s.L, &s.U, n, n, 1, &vv)) { wk_fail(r, "structure", "capacity nnz(A)+%ld: %s", c->lwork, vv.msg); xs_destroy(&s); return; }
         WK_COUNT(O.expansions == 0 ? C_E0 : O.expansions == 1 ? C_E1 : O.expansions == 2 ? C_E2 : C_E3);
         xs_destroy(&s); WK_COUNT(C_IDENT);
+        /* the same capacities inside an ample caller workspace: every growth now slides the arrays behind the grown one (user_bcopy), so a pointer that a
+           routine keeps across its own growth request goes stale exactly when an array is full at that request */
+        {
+            int slack; long L = 1L << 18; unsigned char *w = ws_place(L, (int)(c->lwork & 1) * 4, c->fillb, &slack); outcome O2; xs s2;
+            vf_reset_case(); run_once(c, w, L, &O2, &s2, r);
+            if (r->status) { xs_destroy(&s2); return; }
+            if (!(O2.info >= 0 && O2.info <= n)) { wk_fail(r, "ws-capacity-failed", "incomplete LU with initial capacity nnz(A)+%ld in a 256 KiB caller workspace returned info=%ld", c->lwork, O2.info); xs_destroy(&s2); return; }
+            O2.expansions = O.expansions;       /* counted differently per memory model; not part of this comparison */
+            if (!same_outcome(&O2, &base, n, why, sizeof why)) { wk_fail(r, "provenance", "incomplete LU with initial capacity nnz(A)+%ld in a caller workspace: result differs from the ample-capacity library run: %s", c->lwork, why); xs_destroy(&s2); return; }
+            verdict v2; memset(&v2, 0, sizeof v2);
+            if (check_LU_structure(T, &s2.L, &s2.U, n, n, 1, &v2)) { wk_fail(r, "structure", "capacity nnz(A)+%ld, caller workspace: %s", c->lwork, v2.msg); xs_destroy(&s2); return; }
+            xs_destroy(&s2); WK_COUNT(C_CAPWS);
+        }
         return;
     }
     vcase ref = *c; if (c->aux != 2) ref.tune[6] = 30; vf_fill_byte = 0xA5;
